@@ -200,6 +200,22 @@ def phi_alternatives(e: ast.AST) -> List[ast.AST]:
     return [e]
 
 
+def simplify_under(e: ast.AST, facts) -> ast.AST:
+    """decide conditional expressions whose test (or its negation) is among the path facts of the statement."""
+    fs = set(facts)
+
+    class _S(ast.NodeTransformer):
+        def visit_IfExp(self, n):
+            self.generic_visit(n)
+            pos, neg = atoms_of(n.test, True), atoms_of(n.test, False)
+            if pos and all(a in fs for a in pos):
+                return n.body
+            if neg and all(a in fs for a in neg):
+                return n.orelse
+            return n
+    return _S().visit(copy.deepcopy(e))
+
+
 @dataclass
 class StmtInfo:
     stmt: ast.stmt
